@@ -1485,6 +1485,9 @@ class Backend:
             m = regex.search(arg)
             while m is not None:
                 index = int(m.group(1))
+                if index >= len(output_list):
+                    raise MesonException(f'Generator argument {arg!r} refers to output number {index}, '
+                                         f'but the generator has only {len(output_list)} output(s).')
                 src = m.group(0)
                 arg = arg.replace(src, os.path.join(private_dir, output_list[index]))
                 m = regex.search(arg)
